@@ -19,8 +19,10 @@ NAMES = ["alpha", "beta", "gamma", "delta", "eps", "zeta", "eta", "theta", "iota
 
 
 class Ctx:
-    def __init__(self, rng, docs=True, spell=True, styles=False):
+    def __init__(self, rng, docs=True, spell=True, styles=False, idcase=False):
         self.styles = styles
+        self.idcase = idcase
+        self.known = set()
         self.rng = rng
         self.n = 0
         self.docs = docs
@@ -30,7 +32,26 @@ class Ctx:
     def name(self, base=None):
         self.n += 1
         b = base or self.rng.choice(NAMES)
+        self.known.add(f"{b}{self.n}")
         return f"{b}{self.n}"
+
+    def recase(self, text):
+        """Fortran is case-insensitive: spell each occurrence of a declared identifier in the code part
+        of a line with a random letter case (declaration and use sites then differ)"""
+        if not self.idcase or not self.known:
+            return text
+        cut = text.find("!")
+        code, rest = (text, "") if cut < 0 else (text[:cut], text[cut:])
+        if "'" in code or '"' in code:
+            return text
+
+        def sub(m):
+            w = m.group(0)
+            if w not in self.known or self.rng.random() > 0.35:
+                return w
+            return self.rng.choice([w.upper(), w.capitalize(), w[:1] + w[1:].upper()])
+        import re as _re
+        return _re.sub(r"[A-Za-z_][A-Za-z_0-9]*", sub, code) + rest
 
     def docs_for(self):
         if not self.docs or self.rng.random() < 0.3:
@@ -245,6 +266,8 @@ class Out:
         self.style_counts = {}
 
     def emit(self, term, text):
+        if text is not None and getattr(self, "cx", None) is not None:
+            text = self.cx.recase(text)
         self.events.append((term, text))
 
     def docs(self, lines, ind):
@@ -255,12 +278,13 @@ class Out:
         """a statement that creates an entity, with its documentation in one of the four marker styles
         (FORD's defaults: !! after, !> before, !* block after, !| block before); the reader delivers
         the documentation after the statement in every style, so the statement-kind sequence is the same"""
-        style = cx.rng.choice(["post", "post", "pre", "altpost", "altpre", "inline"]) if (cx.styles and docs) else "post"
+        style = cx.rng.choice(["post", "post", "pre", "premixed", "altpost", "altpre", "inline"]) if (cx.styles and docs) else "post"
         i2 = ind + "  "
         self.style_counts[style] = self.style_counts.get(style, 0) + 1
-        if style == "pre":
-            for d in docs:
-                self.emit(None, f"{ind}!>{d}")
+        if style in ("pre", "premixed"):
+            for i, d in enumerate(docs):
+                # the pre-marker is only required on the first line of a preceding block
+                self.emit(None, f"{ind}!>{d}" if (style == "pre" or i == 0) else f"{ind}!!{d}")
             if cx.rng.random() < 0.3:
                 self.emit(None, "")
             self.emit(term, text)
@@ -502,6 +526,7 @@ def render_container(cx, out, node, ind=""):
 
 def render_file(cx, fnode):
     out = Out()
+    out.cx = cx
     for u in fnode["children"]:
         while cx.rng.random() < 0.2:
             out.emit(None, cx.rng.choice(["", "! plain comment", "   "]))
